@@ -241,6 +241,7 @@ class P(Prop):
     MX = "TracklibVerif.Props.C15Ext"
     MF = "TracklibVerif.Props.C15ExtFin"
     MN = "TracklibVerif.Props.C15ExtNonneg"
+    MC = "TracklibVerif.Props.C15Coll"
     theorems = [
         (M, "TV.C15.window_spec", "(w,x) is in the window of i iff w = k[j] and x = v[i-j+D] for a kernel position j whose sample index is inside the signal and not NaN"),
         (M, "TV.C15.filter_is_mean", "T1: in the domain Filter.execute succeeds, returns one value per observation, and every filtered value is (sum k[j] v[i-j+D]) / (sum k[j]) over the valid j"),
@@ -301,6 +302,10 @@ class P(Prop):
         (MX, "TV.C15.inf_sample_both_nan", "a window holding a +inf and a -inf sample, positive weights: the output is NaN, no exception"),
         (MN, "TV.C15.inf_sample_nonneg_pinf", "non-negative weights (the window of a Kernel object, zero at the support edge), a +inf sample, no -inf, every infinite sample under a positive weight: the output is +inf"),
         (MN, "TV.C15.inf_sample_zero_weight_nan", "a zero weight on an infinite sample (the edge of a Uniform / Triangular window over +/-inf): 0 * inf is NaN and the output is NaN, not the mean of the samples that carry weight"),
+        (MC, "TV.C15.collection_smooth_all", "TrackCollection.smooth = `for track in self: track.smooth(w)`: when Track.smooth succeeds on every track, every track has become its own smoothed track (in place, in order), nothing is returned, module-level state unchanged"),
+        (MC, "TV.C15.collection_smooth_first_failure", "the first track whose smooth raises stops the loop: the earlier tracks stay smoothed, the later ones are untouched, the exception is that track's own"),
+        (MC, "TV.C15.collection_smooth_is_mean", "T1 for TrackCollection.smooth(width): every track non-empty with x, y, z in the domain of the Gaussian window — in every track each coordinate becomes its mean signal, features untouched"),
+        (MC, "TV.C15.collection_smooth_too_short_fails", "TrackCollection.smooth() with the default constraint = 1e3 (half window 3000), or any width whose half window exceeds the first track: IndexError at the first track, no track smoothed"),
         (MF, "TV.C15.fin_div_fin", "temp[i] / norm as numpy computes it from finite accumulators: t/n when n != 0, else inf / -inf by the sign of t, nan for 0/0"),
         (MF, "TV.C15.finite_weights_any_sign", "finite weights of ANY sign (negative included), every window reading a sample: out[i] = (sum k[j] v[i-j+D]) / (sum k[j]) as numpy divides — the renormalised mean when the norm is not 0, +/-inf or NaN when it cancels; never an exception with numpy weights"),
         (MF, "TV.C15.ext_model_agrees", "no zero norm: the model over Python's numbers returns exactly the signal of the model over a field (meanSignal), so the domain theorems (filter_is_mean, filter_bounds, ...) hold for it"),
@@ -342,7 +347,9 @@ class P(Prop):
                 "user-defined kernels given by a table of values (closed-form user functions are a function parameter tabulated by Python), "
                 "filter_seq (int kernel, default kernel, one-element list, float kernel, dispatch on dim: default / module constant / list / str, x/y/z through the feature 'temp', "
                 "in-place renormalisation of the weight list at every dimension), the same track filtered several times with the same kernel object, Track.smooth (default width), "
-                "sessions of calls threading the module-level state; "
+                "sessions of calls threading the module-level state; TrackCollection.smooth (Model/FilterColl.lean: the loop over the tracks, each smoothed in place by "
+                "Track.smooth with a new Gaussian kernel, default constraint = 1e3, the first exception leaves the loop; the state of the failing track after the exception is "
+                "not modelled); "
                 "Filter.execute over Python's numbers (Model/FilterExt.lean: the same loops `cells` / `normalise` instantiated at Ext = exact scalars + inf, -inf, nan): a weight list "
                 "whose total is 0 / NaN / infinite (`kernel[i] /= norm` with numpy scalars does not raise), negative weights with a cancelling norm (+/-inf, not ZeroDivisionError), "
                 "NaN / infinite weights (a feature-name kernel over a feature holding NaN), infinite samples under list weights and under Kernel-object windows (0 * inf = nan)")
@@ -373,7 +380,10 @@ class P(Prop):
             "first valid / anywhere / both signs) is judged at the windows that hold no infinite sample and at the copied boundary values; 'ext' (exact stream over Ext Rat: 20 fixed weight lists "
             "x every signal over {1, 3, NaN, inf} of the window's length, then random weight lists with a zero total / negative weights (total +/- a power of two) / a NaN or infinite weight / "
             "positive weights, given as a list or as the name of a feature, and Kernel objects, on signals holding NaN, +inf, -inf) is compared with Model/FilterExt.lean everywhere and judged "
-            "only where the property speaks: non-negative finite weights with a positive total, at the windows holding no infinite sample. non-trivial = window of "
+            "only where the property speaks: non-negative finite weights with a positive total, at the windows holding no infinite sample; 'coll' (TrackCollection.smooth on 0..4 tracks, "
+            "widths 0.5..2 or the default constraint 1e3, tracks longer than the window / between the half window and the window / shorter than the half window / without observation): "
+            "every track reached before an exception is judged like a track smoothed alone, with the window the implementation exposes; the exception is excusable only on the first track "
+            "that is by its input outside the domain or shorter than the half window. non-trivial = window of "
             "at least 3 weights and a non-constant signal (or a sliding-window case)")
 
     def setup(self):
@@ -784,6 +794,136 @@ class P(Prop):
             return "the input feature was modified: %r" % out["input_after"]
         return check_nonfinite(w, v, fb, out["out"], "feature")
 
+    # ---------------------------------------------------------------- 'coll': TrackCollection.smooth
+    # case: {"kind": "coll", "sc": "f", "tracks": [{"x": .., "y": .., "z": ..}, ...], "w": width, "womit": bool (default constraint = 1e3)}
+    def coll_width(self, case):
+        return 1000.0 if case.get("womit") else case["w"]
+
+    def coll_cases(self, rng, quick):
+        out = [{"kind": "coll", "sc": "f", "tracks": [], "w": 1}]
+        for _ in range(120 if quick else 1500):
+            wd = rng.choice([1, 1, 2, 1.5, 0.5, 0.75])
+            D = int(3 * wd)
+            tracks = []
+            for _ in range(rng.randrange(1, 5)):
+                r = rng.random()
+                if r < 0.78:
+                    n = 2 * D + 1 + rng.randrange(0, 7)
+                elif r < 0.9:
+                    n = rng.randrange(D, 2 * D + 1)                # shorter than the window, at least the half window: unchanged
+                elif r < 0.97:
+                    n = rng.randrange(1, D) if D > 1 else 2 * D + 1   # shorter than the half window: IndexError, the loop stops
+                else:
+                    n = 0                                             # no observation: AnalyticalFeatureError
+                tracks.append({"x": self.rand_signal(rng, n, nan=False, floats=True),
+                               "y": self.rand_signal(rng, n, nan=(rng.random() < 0.15), floats=True),
+                               "z": self.rand_signal(rng, n, nan=False, floats=True)})
+            out.append({"kind": "coll", "sc": "f", "tracks": tracks, "w": wd})
+        for _ in range(4 if quick else 30):      # the default argument: constraint = 1e3, half window 3000
+            tracks = [{"x": self.rand_signal(rng, n, nan=False, floats=True), "y": self.rand_signal(rng, n, nan=False, floats=True),
+                       "z": self.rand_signal(rng, n, nan=False, floats=True)} for n in [rng.randrange(1, 12) for _ in range(rng.randrange(1, 4))]]
+            out.append({"kind": "coll", "sc": "f", "tracks": tracks, "w": 1000.0, "womit": True})
+        return out
+
+    def coll_impl(self, case):
+        import engine
+        from tracklib.core.track_collection import TrackCollection
+        ts = [self.mk_track(t["x"], t["y"], t["z"]) for t in case["tracks"]]
+        tc = TrackCollection(list(ts))
+        res = {}
+        try:
+            ret = tc.smooth() if case.get("womit") else tc.smooth(case["w"])
+            res["returned"] = None if ret is None else "something"
+        except BaseException as e:
+            if isinstance(e, KeyboardInterrupt):
+                raise
+            res = {"err": engine.err_kind(e), "detail": str(e)[:200]}
+        res["tracks"] = [self.read_track(t) for t in ts]              # the caller's track objects: smoothed in place
+        res["members_same"] = tc.size() == len(ts) and all(tc.getTrack(i) is ts[i] for i in range(len(ts)))
+        res["state"] = self.globals_now()
+        res["window"] = self.safe_window({"t": "gaussian", "p": self.coll_width(case), "fb": None})
+        return res
+
+    def coll_requests(self, case):
+        ks = self.kspec("f", {"t": "gaussian", "p": self.coll_width(case), "fb": None})
+        toks = " ".join(self.track_tok("f", t) for t in case["tracks"])
+        return [("C15.coll f %d %s %s" % (len(case["tracks"]), toks, ks)).replace("  ", " "), "C15.sw f %s" % ks]
+
+    def coll_decode(self, case, replies):
+        parts = replies[0].split(" # ")
+        n = len(case["tracks"])
+        res = {}
+        if parts[0] != "ok":
+            kind, at = parts[0].split("@")
+            res = {"err": kind, "at": int(at)}
+        else:
+            res["returned"] = None
+        tracks = []
+        for p in parts[1:1 + n]:
+            names, sigs = p.split(" ")
+            tracks.append(dict(zip(untok(names), [self.vals("f", s_) for s_ in untok(sigs, ";")])))
+        res["tracks"] = tracks
+        res["members_same"] = True
+        res["state"] = self.decode_globals(parts[1 + n])
+        res["window"] = self.decode_sw("f", {"t": "gaussian"}, replies[-1])
+        return res
+
+    def coll_compare(self, case, a, b):
+        if ("err" in a) != ("err" in b):
+            return "impl=%s model=%s" % (str(a)[:300], str(b)[:300])
+        skip = None
+        if "err" in a:
+            if a["err"] not in self.ERR_MAP.get(b["err"], ()):
+                return "error kinds differ: impl=%s model=%s" % (a["err"], b["err"])
+            skip = b["at"]       # the failing track itself is not modelled after the exception (scratch feature, half-done coordinates)
+        for key in ("returned", "members_same", "state"):
+            if a.get(key) != b.get(key):
+                return "%s: impl=%r model=%r" % (key, a.get(key), b.get(key))
+        if not close(a["window"], b["window"], self.rel_tol):
+            return "window: impl=%s model=%s" % (str(a["window"])[:200], str(b["window"])[:200])
+        for i, (x, y) in enumerate(zip(a["tracks"], b["tracks"])):
+            if i != skip and not close(x, y, self.rel_tol):
+                return "track %d: impl=%s model=%s" % (i, str(x)[:300], str(y)[:300])
+        return None
+
+    def coll_spec(self, case, out):
+        """every track of the collection is to be smoothed like a track smoothed alone (Track.smooth, judged by spec_seq with the
+        window the implementation exposes); an exception is excusable only on the first track that is, by its INPUT, outside the domain
+        (a window without valid weight, no observation) or shorter than the half window with copied boundaries; the tracks before it are
+        judged, the ones after it were never reached"""
+        if not out.get("members_same", True):
+            return "the collection does not hold the caller's tracks any more"
+        win = out.get("window")
+        bad = check_window(win)
+        if bad:
+            return bad
+        w = [Fraction(x) for x in win]
+        wd = self.coll_width(case)
+        def status(t):
+            n = len(t["x"])
+            if n == 0 or any(x < 0 for x in w) or not all(domain_ok(w, t[c]) for c in "xyz"):
+                return "undefined"
+            if index_zone(w, False, n):
+                return "index"
+            return "ok"
+        st = [status(t) for t in case["tracks"]]
+        stop = len(st)
+        if "err" in out:
+            bad_ones = [i for i, s_ in enumerate(st) if s_ != "ok"]
+            if not bad_ones:
+                return "raised %s (%s) although every track is inside the domain" % (out["err"], out.get("detail", ""))
+            stop = bad_ones[0]
+            bad = None if len(case["tracks"][stop]["x"]) == 0 else self.judge_error(dict(case["tracks"][stop], kind="smooth", w=wd, sc="f"), {"err": out["err"], "detail": out.get("detail", ""), "window": win})
+            if bad:
+                return "track %d: %s" % (stop, bad)
+        for i in range(stop):
+            if st[i] != "ok":
+                continue
+            bad = self.spec_seq(dict(case["tracks"][i], api="smooth", w=wd), {"sigs": out["tracks"][i], "same": True, "window": win})
+            if bad:
+                return "track %d of the collection: %s" % (i, bad)
+        return None
+
     def cases(self, rng, tier):
         out = []
         quick = tier == "quick"
@@ -989,6 +1129,7 @@ class P(Prop):
         for _ in range(150 if quick else 1500):
             out.append(self.rand_bad(rng))
         out.extend(self.ext_cases(rng, quick))
+        out.extend(self.coll_cases(rng, quick))
         return out
 
     def rand_op(self, rng):
@@ -1141,6 +1282,9 @@ class P(Prop):
         kind = case["kind"]
         if kind == "ext":
             return {"kind": kind, "kernel": case["k"]["t"], "scalar": "r", "via": case["via"], "ext": "+".join(self.ext_class(case))}
+        if kind == "coll":
+            return {"kind": kind, "kernel": "gaussian", "scalar": "f", "tracks": min(len(case["tracks"]), 4),
+                    "width_argument": "omitted" if case.get("womit") else "given"}
         if kind == "session":
             t = {"kind": kind, "scalar": case["sc"], "steps": len(case["steps"]), "prebuilt_kernels": bool(case.get("prebuild")),
                  "apis": "+".join(sorted({st["api"] for st in case["steps"]})),
@@ -1204,6 +1348,8 @@ class P(Prop):
         kind = case["kind"]
         if kind == "ext":
             return False
+        if kind == "coll":
+            return len(case["tracks"]) >= 2 and not case.get("womit")
         if kind == "sw":
             return True
         if kind in ("zeronorm", "badk"):
@@ -1371,6 +1517,8 @@ class P(Prop):
         kind = case["kind"]
         if kind == "ext":
             return self.ext_impl(case)
+        if kind == "coll":
+            return self.coll_impl(case)
         if kind == "sw":
             return {"window": self.window_of(case["k"])}
         if kind in ("feat", "zeronorm", "short", "zerow", "inff"):
@@ -1519,6 +1667,8 @@ class P(Prop):
         kind, sc = case["kind"], case["sc"]
         if kind == "ext":
             return self.ext_requests(case)
+        if kind == "coll":
+            return self.coll_requests(case)
         if kind == "sw" or (kind == "badk" and "dims" not in case):
             return ["C15.sw %s %s" % (sc, self.kspec(sc, case["k"]))]
         if kind in ("feat", "zeronorm", "short", "zerow", "inff"):
@@ -1615,6 +1765,8 @@ class P(Prop):
             raise ValueError("bad-request")
         if kind == "ext":
             return self.ext_decode(case, replies)
+        if kind == "coll":
+            return self.coll_decode(case, replies)
         if kind == "sw" or (kind == "badk" and "dims" not in case):
             r = replies[-1].split(" ")
             if r[0] != "ok":
@@ -1694,6 +1846,8 @@ class P(Prop):
         return "impl=%s model=%s" % (str(impl_out)[:400], str(model_out)[:400])
 
     def compare(self, case, impl_out, model_out):
+        if case["kind"] == "coll":
+            return self.coll_compare(case, impl_out, model_out)
         if case["kind"] == "session" and "steps" in impl_out and "steps" in model_out:
             for i, (a, b) in enumerate(zip(impl_out["steps"], model_out["steps"])):
                 bad = self.compare_one(a, b)
@@ -1765,6 +1919,8 @@ class P(Prop):
         kind = case["kind"]
         if kind == "ext":
             return self.ext_spec(case, out)
+        if kind == "coll":
+            return self.coll_spec(case, out)
         if kind in ("zeronorm", "badk") or (kind == "opl" and not case["judge"]):
             return None  # outside the domain of the property (a window without valid weight / a refused call / a form of
             #              the list arguments whose final track the property does not describe)
@@ -1905,6 +2061,12 @@ class P(Prop):
 
     def shrink(self, case):
         kind = case["kind"]
+        if kind == "coll":
+            ts = case["tracks"]
+            if len(ts) > 1:
+                for i in range(len(ts)):
+                    yield dict(case, tracks=ts[:i] + ts[i + 1:])
+            return
         if kind == "ext":
             v = case["sig"]
             if case["via"] == "list" and len(v) > 1:
@@ -2048,6 +2210,8 @@ class P(Prop):
 
     def mutate(self, case, rng):
         kind = case["kind"]
+        if kind == "coll":
+            return
         if kind == "ext":
             v = case["sig"]
             for _ in range(12):
